@@ -14,6 +14,8 @@ pub mod c08;
 pub mod c07;
 pub mod c05;
 pub mod c10;
+pub mod c16;
+pub mod c17;
 pub mod smoke;
 pub mod exp;
 pub mod c01;
@@ -49,6 +51,8 @@ pub fn plan(id: &str, tier: &str) -> Option<Plan> {
         "C07" => Some(Plan::new(if _t { 40 } else { 12 }, 1500)),
         "C05" => Some(Plan::new(if _t { 40 } else { 12 }, 1500)),
         "C10" => Some(Plan::new(if _t { 40 } else { 12 }, 1500)),
+        "C16" => Some(Plan::new(if _t { 36 } else { 12 }, 1800)),
+        "C17" => Some(Plan::new(if _t { 40 } else { 12 }, 1500)),
         _ => None,
     }
 }
@@ -68,6 +72,8 @@ pub fn spec(id: &str) -> Option<Spec> {
         "C07" => Some(c07::spec()),
         "C05" => Some(c05::spec()),
         "C10" => Some(c10::spec()),
+        "C16" => Some(c16::spec()),
+        "C17" => Some(c17::spec()),
         _ => None,
     }
 }
@@ -87,6 +93,8 @@ pub fn worker(ctx: &WorkerCtx) -> WorkerReport {
         "C07" => c07::worker(ctx),
         "C05" => c05::worker(ctx),
         "C10" => c10::worker(ctx),
+        "C16" => c16::worker(ctx),
+        "C17" => c17::worker(ctx),
         other => {
             let mut r = WorkerReport::default();
             r.inconclusive(format!("no worker for {}", other));
